@@ -488,7 +488,11 @@ func replay(r *vrun.Run) {
 	}
 	switch {
 	case w.Scenario != nil && w.Scenario.Part == "bubble":
-		for i := 0; i < 200; i++ {
+		n := 200
+		if w.Scenario.Kind != kWaitOnly && w.Scenario.D() == w.Scenario.E() {
+			n = 5000 // equal instants: the runtime's scheduling decides, so the replay repeats the case more often
+		}
+		for i := 0; i < n; i++ {
 			runBubbleCase(r, *w.Scenario)
 		}
 	case w.Scenario != nil:
